@@ -177,6 +177,52 @@ def task(mode, cse, names, tier, seed):
         part.fn("python.compile", "python.Model.model", "python.BasicBlock._compile", "python.BasicBlock.execute", "reference_models.strapdown_imu.symbolic_model")
         from formak import python
 
+        # concrete differential first: the compiled model against the reference at seeded points and at points in
+        # particular (valid) regimes - a step longer / shorter than the configured maximum, a mounting calibration that
+        # is almost but not exactly the identity, biases of 1e-9, large positions.  Judged relative to the magnitude
+        # bound of the reference expression.  (Also decides changes after which the symbolic run cannot finish.)
+        import math
+
+        crng = random.Random(seed + 41)
+        cpts = []
+        for i in range(2):
+            cpts.append(("seeded", seeded_env(crng)))
+        for dtv_ in (0.375, 1.0, 0.1, 1e-4):
+            e_ = seeded_env(crng)
+            e_["dt"] = dtv_
+            cpts.append((f"dt={dtv_}", e_))
+        e_ = seeded_env(crng)
+        e_.update({"coriw": 1.000004, "corix": 3e-6, "coriy": -2e-6, "coriz": 1e-6})
+        for b_ in BIAS:
+            e_[b_] = 5e-9
+        cpts.append(("near-identity calibration, 5e-9 biases", e_))
+        e_ = seeded_env(crng)
+        e_.update({"coriw": 0.9999999, "corix": 0.0, "coriy": 4e-7, "coriz": 0.0, "g": 9.80665})
+        for n_ in POS:
+            e_[n_] = e_[n_] * 2.0 ** 20
+        cpts.append(("almost-unit calibration, large positions", e_))
+        for lab_, e_ in cpts:
+            try:
+                want = {n_: X.evalf(ref[n_], e_) for n_ in state_names}
+                mags = {n_: X.evalmag(ref[n_], e_) for n_ in state_names}
+            except (ZeroDivisionError, ValueError, OverflowError):
+                continue
+            try:
+                got = concrete_model(cse, e_)
+            except Exception as ex:
+                path = write_replay(PID, {"key": f"compiled/cse={int(cse)}/raises", "info": {"mode": mode, "cse": cse}, "inputs": e_, "exception": f"{type(ex).__name__}: {ex}"})
+                part.violation(f"compiled/cse={int(cse)}/raises", f"compiled strapdown model raises {type(ex).__name__}: {ex} ({lab_})", path)
+                return part.d
+            badc = [n_ for n_ in state_names if not (math.isfinite(got[n_]) and abs(got[n_] - want[n_]) <= 1e-9 * mags[n_] + 1e-300)]
+            from .common import Q as _Qc
+
+            part.record(_Qc("sat" if badc else "unsat", None, 0.0, ""), f"compiled/cse={int(cse)}: compiled model == reference at a concrete point ({lab_}), relative to operand magnitude")
+            if badc:
+                n_ = badc[0]
+                path = write_replay(PID, {"key": f"compiled/cse={int(cse)}/concrete[{n_}]", "info": {"mode": "concrete", "cse": cse, "state": n_}, "inputs": e_})
+                part.violation(f"compiled/cse={int(cse)}/concrete[{n_}]", f"compiled strapdown model differs from the rigid-body reference ({lab_}): {n_} = {got[n_]!r}, reference {want[n_]!r} (also {badc[1:4]}) at dt={e_['dt']}", path)
+                return part.d
+
         def harness():
             with installed(), quiet():
                 cal = {s: SymReal(env[s.name]) for s in sm.calibration}
@@ -315,6 +361,13 @@ def replay(path):
     except Exception as ex:
         print(f"REPRODUCED: raises {type(ex).__name__}: {ex}")
         return 1
+    if info.get("mode") == "concrete":
+        import math
+
+        bad = {n: (got[n], X.evalf(ref[n], e2)) for n in ref if not (math.isfinite(got[n]) and abs(got[n] - X.evalf(ref[n], e2)) <= 1e-9 * X.evalmag(ref[n], e2) + 1e-300)}
+        print(bad)
+        print("REPRODUCED" if bad else "not reproduced")
+        return 1 if bad else 0
     bad = {n: (got[n], X.evalf(ref[n], e2)) for n in ref if not approx_equal(got[n], X.evalf(ref[n], e2), rel=1e-6)}
     print(bad)
     if bad:
